@@ -359,8 +359,14 @@ class Ctx:
         return self.tier == "thorough"
 
     def budget(self, quick, thorough):
-        b = thorough if (self.thorough or self.escalated) else quick
-        return b
+        """quick / thorough sample sizes.  An ESCALATED quick run (an obligation is broken or the correspondence disagrees, so the
+        search for a failing input is widened) takes four times the quick size, not the thorough one: the quick tier has to stay a
+        matter of minutes on a tree that breaks a tie as well."""
+        if self.thorough:
+            return thorough
+        if self.escalated and isinstance(quick, int) and not isinstance(quick, bool) and isinstance(thorough, int):
+            return min(thorough, quick * 4) if thorough >= quick else thorough
+        return thorough if self.escalated else quick
 
     # -- recording ----------------------------------------------------------
     def oblige(self, name, ok, detail=""):
